@@ -381,6 +381,33 @@ def _fresh_receiver(f, t, mg, cache):
     return True
 
 
+def _compared_handles(f, t1, t2, at_block, cache):
+    """the two cells borrowed by t1 and t2 were compared for identity (`a == b` on the two handles) on the way to the second borrow:
+    code that has dealt with the "same object" case before borrowing both"""
+    if f.path not in cache:
+        cache[f.path] = origins(f)
+    org = cache[f.path]
+
+    def roots(t):
+        pl = op_place(t['args'][0]) if t['args'] else None
+        return {q[0] for q in org.get(pl['l'], ())} if pl else set()
+    r1, r2 = roots(t1), roots(t2)
+    if not r1 or not r2:
+        return False
+    dom = f.dominators()
+    for bi, t in f.calls():
+        n = callee_name(t) or ''
+        if not (n.endswith('::eq') or n.endswith('::ne') or n.endswith('ptr_eq')) or len(t['args']) != 2 or bi not in dom.get(at_block, ()):
+            continue
+        sides = []
+        for a in t['args']:
+            pl = op_place(a)
+            sides.append({q[0] for q in org.get(pl['l'], ())} if pl else set())
+        if (sides[0] & r1 and sides[1] & r2) or (sides[0] & r2 and sides[1] & r1):
+            return True
+    return False
+
+
 def _site_targets(w, f, t):
     """workspace functions this call may enter; for a keyed operation of a std HashMap only the key type's Hash / Eq"""
     tg, ext, _ = w.call_targets(f, t)
@@ -401,7 +428,7 @@ def p4(rep, w):
     mg = c01.may_gc(w)
     managed = {im['adt'] for im in c01.gc_impls(w) if im['k'] == 'adt'}
     exc = {e['key']: e for e in c01.table('c02_reborrow_ok.json')}
-    r = rep.rule('P4', 'no heap cell can be borrowed again (same payload type, one side mutable) while a guard of it is alive', floor=100)
+    r = rep.rule('P4', 'no heap cell can be borrowed again (same payload type, one side mutable) while a guard of it is alive', floor=60)
     cache = {}
     direct = defaultdict(set)
     for f in w.fns.values():
@@ -438,9 +465,14 @@ def p4(rep, w):
                     continue
                 g2 = _guard_of(f, t2, managed)
                 cn = (callee_name(t2) or 'indirect call')
-                if g2 and g2[0] == g[0] and 'mut' in (g[1], g2[1]) and not _fresh_receiver(f, t2, mg, cache):
+                if g2 and g2[0] == g[0] and 'mut' in (g[1], g2[1]) and not _fresh_receiver(f, t2, mg, cache) and not _compared_handles(f, t, t2, b, cache):
                     confl.setdefault(strip_generics(cn).rsplit('::', 1)[-1], (b, 'this function borrows a %s again' % g[0].rsplit('::', 1)[-1]))
                 for x in sorted(_site_targets(w, f, t2)):
+                    # a keyed operation on a HashMap<Value, ..> runs == / hash of *keys*; keys of a map are hashable values, and no hashable
+                    # kind is or contains a map (C12 H1 / H2 decide exactly that), so they never borrow an ObjHashMap
+                    if g[0].endswith('::ObjHashMap') and strip_generics(cn).rsplit('::', 1)[-1] in KEYED_MAP_OPS + ('extend',) and \
+                            x in ('yarel::<value::Value as std::cmp::PartialEq>::eq', 'yarel::<value::Value as std::hash::Hash>::hash'):
+                        continue
                     for (T, k) in sorted(trans.get(x, ())):
                         if T == g[0] and 'mut' in (g[1], k):
                             confl.setdefault(strip_generics(cn).rsplit('::', 1)[-1], (b, '%s can borrow a %s (%s)' % (x, T.rsplit('::', 1)[-1], k)))
